@@ -27,6 +27,25 @@ PROPS = {
             "rule": "1-3 concatenated requests (valid, malformed, garbage) x segmentations x handler behaviours (respond+close at once, later, never) x post-close API calls x late transport events"},
 }
 
+LEVEL = {
+ "C01": ("Theorems: the parser model accepts a head iff it has the METHOD SP target SP HTTP/1.x + `name: value` lines shape, and the fields shown to the application are exactly those; tie: every generated head goes through the real Socket and through the model, the accessor snapshot is compared byte for byte.",
+         "QUrl is a parameter of the theorems; Qt value-class sub-models validated differentially; SimTcp stands for QTcpSocket."),
+ "C02": ("Theorems over the socket read-side state machine for every segmentation and reader policy; tie: streams x segmentations x reader policies on the real Socket, reads/bytesAvailable/notifications compared with the model.",
+         "QIODevice buffering is modelled (16 KiB chunks) and validated by the same runs; SimTcp stands for QTcpSocket."),
+ "C03": ("Theorems: the serialised response re-parses (independent strict parser) to the status, per-name value multisets and body that the API history denotes; tie: random API histories on the real Socket, wire bytes compared with the model.",
+         "documented preconditions (CR/LF-free tokens, one head) are explicit in `wfOps`; kernel socket buffering is Qt/OS."),
+ "C04": ("Theorems: a rejected head yields exactly one 400 with consistent Content-Length, the transport closed, no notification or routing, for every segmentation and pre-buffering; tie: malformed heads x segmentations x pre-buffered prefixes on the real Socket.",
+         "as C01/C02."),
+ "C18": ("Theorems: the sum of notified counts is max 0 (acked - H) at every point (inductive invariant over write/ack interleavings); tie: exhaustive ack compositions around the header edge + random runs on the real Socket; onBytesWritten regenerated from the C++ and bridge-proved equal to the model.",
+         "SimTcp acknowledgements stand for QTcpSocket::bytesWritten."),
+ "C19": ("Theorems: headersParsed at most once per run, the wire is frozen once the transport is closed, disconnect follows the last acknowledgement; tie: pipelined/garbage streams x handler behaviours x post-close calls on the real Socket.",
+         "as C02/C03."),
+}
+for _k, _v in LEVEL.items():
+    PROPS[_k]["level_text"], PROPS[_k]["level_note"] = _v
+
+NOT_APPLICABLE = {}
+
 # bridge modules (theorems Gen = Model over the regenerated QhttpGen/*.lean) each property depends on
 BRIDGES = {
 }
